@@ -138,7 +138,7 @@ fn corner_mul(choice: u8, size: usize, stride: usize) -> u128 {
     }
 }
 macro_rules! overlap_sound_huge {
-    ($name:ident, $n:literal, [$($s:expr),*]) => {
+    ($name:ident, $n:literal, [$($s:expr),*], $accept_exists:expr) => {
         #[kani::proof]
         #[kani::unwind(10)]
         fn $name() {
@@ -147,7 +147,10 @@ macro_rules! overlap_sound_huge {
             let accepted =
                 NdLayout::<$n>::from_shape_and_strides(shape, strides, OverlapPolicy::DisallowOverlap)
                     .is_ok();
-            kani::cover!(accepted, "accepting strides exist");
+            // For some huge shapes no stride vector can be accepted at all (every
+            // non-overlapping layout needs an offset >= 2^64): then rejecting
+            // everything is the correct behaviour and the witness says so.
+            kani::cover!(accepted == $accept_exists, "expected acceptance outcome reachable");
             kani::cover!(!accepted, "rejecting strides exist");
             if accepted {
                 let ci: [u8; $n] = kani::any();
@@ -172,13 +175,13 @@ macro_rules! overlap_sound_huge {
         }
     };
 }
-overlap_sound_huge!(c08_q_sound_huge_2x2p63x2, 3, [2, 1 << 63, 2]);
-overlap_sound_huge!(c08_q_sound_huge_2p32x2p32, 2, [1 << 32, 1 << 32]);
-overlap_sound_huge!(c08_q_sound_huge_3x2p62, 2, [3, 1 << 62]);
-overlap_sound_huge!(c08_q_sound_huge_max, 1, [usize::MAX]);
-overlap_sound_huge!(c08_t_sound_huge_2p63x2, 2, [1 << 63, 2]);
-overlap_sound_huge!(c08_t_sound_huge_2p21x2p21x2p22, 3, [1 << 21, 1 << 21, 1 << 22]);
-overlap_sound_huge!(c08_t_sound_huge_2x1x2p63, 3, [2, 1, 1 << 63]);
+overlap_sound_huge!(c08_q_sound_huge_2x2p63x2, 3, [2, 1 << 63, 2], false);
+overlap_sound_huge!(c08_q_sound_huge_2p32x2p32, 2, [1 << 32, 1 << 32], true);
+overlap_sound_huge!(c08_q_sound_huge_3x2p62, 2, [3, 1 << 62], true);
+overlap_sound_huge!(c08_q_sound_huge_max, 1, [usize::MAX], true);
+overlap_sound_huge!(c08_t_sound_huge_2p63x2, 2, [1 << 63, 2], true);
+overlap_sound_huge!(c08_t_sound_huge_2p21x2p21x2p22, 3, [1 << 21, 1 << 21, 1 << 22], true);
+overlap_sound_huge!(c08_t_sound_huge_2x1x2p63, 3, [2, 1, 1 << 63], true);
 
 /// Empty shapes: never reported as overlapping (there are no valid indices),
 /// and the check must not panic whatever the strides.
